@@ -40,8 +40,11 @@ def plan(tier, seed):
     shards = [{"item": {"kind": "matrix"}, "seed": seed, "n": 25 if tier == "quick" else 300},
               {"item": {"kind": "features"}, "seed": seed, "n": 10}, {"item": {"kind": "features", "apart": True}, "seed": seed, "n": 10}]
     for nm in corpus.extra_names():
+        if nm == "wide_package":
+            continue  # (a 1100-field package six times over costs minutes; its subject, the size of ONE module, is C03's)
         shards.append({"item": {"kind": "extra", "name": nm}, "seed": seed, "n": 10, "each_first": True})
-        shards.append({"item": {"kind": "extra", "name": nm, "cmdline": "roots"}, "seed": seed, "n": 6, "each_first": False})
+        if len(corpus.EXTRA_SETS[nm]) > 1:  # "only the root files on the command line" differs from "all" only for several files
+            shards.append({"item": {"kind": "extra", "name": nm, "cmdline": "roots"}, "seed": seed, "n": 6, "each_first": False})
     for i in range(8 if tier == "quick" else 120):
         shards.append({"item": {"kind": "gen", "seed": seed * 100003 + 9000 + i,
                                 "opts": {"names": "hostile" if i % 4 == 3 else "keywords", "services": True}},
@@ -329,6 +332,10 @@ def _compare_behaviour(builds, shard, name, res: Result, w0):
     msgs = b0.user_messages()
     if not msgs:
         return
+    if len(msgs) > 12:
+        # a very wide package (dozens of look-alike messages): the structure of ALL messages is compared above; values are
+        # compared for a sample of them
+        msgs = rng.sample(msgs, 8)
     trees = []
     for mi in msgs:
         cells = list(g.matrix(mi))
@@ -600,4 +607,4 @@ def replay(w):
     return r.violations
 
 
-RULE += ' The same operation history (copy, deepcopy, pickle, assignment of every field of a second value on the shallow and on the deep copy, in-place growth, decode onto a deep copy) must leave identical bytes and JSON on every object involved under every configuration. Extra sets include rare constructs (custom options via extend, reserved, json_name, import public), packages split over files with and without typing constructs, a module beyond 64 KiB.'
+RULE += ' The same operation history (copy, deepcopy, pickle, assignment of every field of a second value on the shallow and on the deep copy, in-place growth, decode onto a deep copy) must leave identical bytes and JSON on every object involved under every configuration. Extra sets include rare constructs (custom options via extend, reserved, json_name, import public), packages split over files with and without typing constructs.'
